@@ -41,6 +41,8 @@ type c18case struct {
 // digest is what two replays must agree on, component by component.
 type digest struct {
 	Parts []string // "name=sha256"
+	// SimMismatch: a transaction whose simulation (SDK simulate mode, same committed state) and delivery disagree
+	SimMismatch string
 }
 
 func h(b []byte) string { s := sha256.Sum256(b); return hex.EncodeToString(s[:12]) }
@@ -69,7 +71,16 @@ func replayDigest(c *c18case) (d digest, err error) {
 		for tag, ords := range b.Faults {
 			ch.Ledger.SetFaults(tag, ords)
 		}
+		// the first transaction of the block also in simulation mode, on the very state it is delivered on
+		simOK, simLog, simmed := false, "", false
+		if len(raws) > 0 && len(b.Faults[chain.TagOf(raws[0])]) == 0 {
+			simOK, simLog = ch.Simulate(raws[0])
+			simmed = true
+		}
 		res := ch.DeliverBlock(raws)
+		if simmed && d.SimMismatch == "" && !res[0].Panicked() && simOK != (res[0].Code == 0) {
+			d.SimMismatch = fmt.Sprintf("block%d.tx0: simulated ok=%v (%s), delivered code=%d (%s)", bi, simOK, simLog, res[0].Code, res[0].Log)
+		}
 		d.Parts = append(d.Parts, fmt.Sprintf("block%d.apphash=%x", bi, ch.LastHash))
 		for ti, r := range res {
 			lg := r.Log
@@ -261,6 +272,9 @@ func c18check(c *c18case, unrelated *c18case, concurrent int) *Viol {
 	ref, err := replayDigest(c)
 	if err != nil {
 		return viol("C18", 0, "replay of a recorded history failed", "completes", err)
+	}
+	if ref.SimMismatch != "" {
+		return viol("C18", 0, "a transaction behaves differently in simulation mode than when it is delivered on the same state", "same verdict", ref.SimMismatch)
 	}
 	again, err := replayDigest(c)
 	if err != nil {
